@@ -13,7 +13,7 @@ static int count_dir (const char *d) { DIR *dp = opendir (d) ; int n = 0 ; struc
 static int count_fds (void) { return count_dir ("/proc/self/fd") ; }
 
 typedef struct { size_t heap ; int fds, tmp, scr ; } SNAP ;
-static void snap (SNAP *s) { s->fds = count_fds () ; s->tmp = count_dir (tmpd) ; s->scr = count_dir (scratch) ; s->heap = __sanitizer_get_current_allocated_bytes () ; }
+static void snap (SNAP *s) { s->fds = count_fds () ; s->tmp = count_dir (tmpd) ; s->scr = count_dir (scratch) ; s->heap = vh_heap_bytes () ; }
 
 typedef void (*SCEN) (void *arg) ;
 /* run a scenario with accounting; 'own_files' = files the scenario legitimately leaves in the scratch dir */
